@@ -225,8 +225,45 @@ class C20(Prop):
             self._driver = common.Driver()
         return self._driver
 
+    @staticmethod
+    def _multi_value_exchange(rng: random.Random) -> list[dict]:
+        """Two sibling containers exchanging SEVERAL values: each value has its own producer inside `prod` and its own consumer inside
+        `cons` (sometimes one level deeper): every value must be drawn between ITS producer and ITS consumers only."""
+        k = rng.randint(2, 3)
+        pn = [{"name": f"p{i}", "kind": "fn", "params": [["x", None]] if i == 0 or rng.random() < 0.5 else [[f"v{i - 1}", None]],
+               "dataOuts": [f"v{i}"], "body": {"b": "tag", "t": f"p{i}"}} for i in range(k)]
+        cn = []
+        for i in range(k):
+            params = [[f"v{i}", None]]
+            if i and rng.random() < 0.5:
+                params.append([f"c{i - 1}", None])
+            elif rng.random() < 0.4:
+                params.append(["x", None])
+            cn.append({"name": f"q{i}", "kind": "fn", "params": params, "dataOuts": [f"c{i}"], "body": {"b": "tag", "t": f"q{i}"}})
+        rng.shuffle(pn)
+        rng.shuffle(cn)
+        prog = [{"name": "prod", "nodes": pn, "bound": []}, {"name": "cons", "nodes": cn, "bound": []}]
+        ci = 1
+        top: list[dict] = [{"name": "prod", "kind": "graph", "inner": 0}]
+        if rng.random() < 0.5:
+            prog.append({"name": "outer", "nodes": [{"name": "cons", "kind": "graph", "inner": 1},
+                                                    {"name": "z", "kind": "fn", "params": [[f"c{k - 1}", None], ["v0", None]], "dataOuts": ["zz"], "body": {"b": "tag", "t": "z"}}], "bound": []})
+            top.append({"name": "outer", "kind": "graph", "inner": 2})
+        else:
+            top.append({"name": "cons", "kind": "graph", "inner": ci})
+            top.append({"name": "z", "kind": "fn", "params": [[f"c{k - 1}", None], [f"v{k - 1}", None]], "dataOuts": ["zz"], "body": {"b": "tag", "t": "z"}})
+        rng.shuffle(top)
+        prog.append({"name": "root", "nodes": top, "bound": []})
+        return prog
+
     def cases(self, rng: random.Random, tier: str) -> Iterable[dict]:
+        forced = [True, True]
         while True:
+            if forced or rng.random() < 0.06:
+                if forced:
+                    forced.pop()
+                yield {"program": self._multi_value_exchange(rng)}
+                continue
             r = rng.random()
             if r < 0.55:
                 c = gen.gen_dag_program(rng, max_nodes=6, depth=rng.choice([1, 1, 2, 2, 3, 3, 0]), allow_fed_default=False, rename_graph_outputs=False)
